@@ -13,71 +13,11 @@
 /*@loop file=src/comm.c function=flush_message match="while (ip->message_length != 0)"
 __CPROVER_assigns(length, num_bytes, ip->message_consumer, ip->message_length, ip->out_of_band, inet_packets, inet_volume, G_sent, G_send_calls, G_errno, G_mod_mask, G_mod_calls)
 __CPROVER_loop_invariant(C14_RING(ip))
-__CPROVER_loop_invariant(0 <= G_sent && G_sent <= C14_N && G_sent + ip->message_length == __CPROVER_loop_entry(ip->message_length))
-__CPROVER_loop_invariant(ip->message_consumer == (__CPROVER_loop_entry(ip->message_consumer) + G_sent) % C14_N)
-__CPROVER_loop_invariant(G_mod_calls == 0)
+__CPROVER_loop_invariant(__CPROVER_loop_entry(G_sent) <= G_sent && G_sent <= __CPROVER_loop_entry(G_sent) + C14_N && G_sent - __CPROVER_loop_entry(G_sent) + ip->message_length == __CPROVER_loop_entry(ip->message_length))
+__CPROVER_loop_invariant(ip->message_consumer == (__CPROVER_loop_entry(ip->message_consumer) + (G_sent - __CPROVER_loop_entry(G_sent))) % C14_N)
 __CPROVER_decreases(ip->message_length)
 @*/
-#ifdef HAVE_CONFIG_H
-#include <config.h>
-#endif
-#include "std.h"
-#include "lpc/object.h"
-#include "comm.h"
-#include "async/async_runtime.h"
-#include "vharness.h"
-#include "c14_ghost.h"
-
-_Static_assert(C14_N == MESSAGE_BUF_SIZE, "ghost ring size");
-
-long G_sent; int G_errno; int G_send_calls; int G_mod_mask = -1; int G_mod_calls;
-static interactive_t *G_ip;
-V_NONDET_FN(interactive_t);
-
-/* ---- contract: C14 for flush_message ---- */
-int flush_message(interactive_t *ip)
-__CPROVER_requires(ip == G_ip && C14_RING(ip) && all_users != 0 && G_sent == 0 && G_mod_calls == 0)
-__CPROVER_assigns(ip->message_consumer, ip->message_length, ip->out_of_band, ip->iflags, inet_packets, inet_volume,
-                  G_sent, G_send_calls, G_mod_mask, G_mod_calls, G_errno)
-/* ring stays well formed */
-__CPROVER_ensures(C14_RING(ip))
-/* the consumer advanced by exactly what the socket accepted; nothing else of the ring moved */
-__CPROVER_ensures(ip->message_consumer == (__CPROVER_old(ip->message_consumer) + G_sent) % C14_N)
-__CPROVER_ensures(ip->message_length == __CPROVER_old(ip->message_length) - G_sent)
-__CPROVER_ensures(ip->message_producer == __CPROVER_old(ip->message_producer))
-/* 0 only for a dead / closing connection; NET_DEAD only set, never cleared, no other flag touched */
-__CPROVER_ensures(__CPROVER_return_value == 0 || __CPROVER_return_value == 1)
-__CPROVER_ensures(__CPROVER_return_value == 0 ==> (ip->iflags & (NET_DEAD | CLOSING)) != 0)
-__CPROVER_ensures((ip->iflags | NET_DEAD) == (__CPROVER_old(ip->iflags) | NET_DEAD))
-/* everything was sent unless the socket refused: returning 1 with bytes left means a would-block/EINTR result,
-   and then write interest was requested (non-console user) */
-__CPROVER_ensures((__CPROVER_return_value == 1 && ip->message_length != 0 && ip != all_users[0]) ==> (G_mod_mask == (EVENT_READ | EVENT_WRITE)))
-__CPROVER_ensures((__CPROVER_return_value == 1 && ip->message_length == 0 && ip != all_users[0] && !(__CPROVER_old(ip->iflags) & (NET_DEAD | CLOSING))) ==> (G_mod_mask == EVENT_READ))
-;
-
-/* ---- trusted stubs ---- */
-int *__errno_location(void) { return &G_errno; }
-
-ssize_t send(int fd, const void *buf, size_t len, int flags) {
-  V_ASSERT(buf == (const void *)(G_ip->message_buf + G_ip->message_consumer), "send starts at the oldest unsent byte");
-  V_ASSERT(len >= 1 && len <= (size_t)G_ip->message_length, "send covers only queued bytes");
-  V_ASSERT((size_t)G_ip->message_consumer + len <= C14_N, "send chunk is contiguous inside the ring");
-  V_DECL(int, send_ret);
-  V_ASSUME(send_ret == -1 || (send_ret >= 1 && (size_t)send_ret <= len));
-  if (send_ret == -1) { V_DECL(int, send_errno); G_errno = send_errno; }
-  else G_sent += send_ret;
-  if (G_send_calls < 1000) G_send_calls++;
-  return send_ret;
-}
-ssize_t write(int fd, const void *buf, size_t len) {
-  V_ASSERT(fd == 1, "console write goes to stdout");
-  return send(fd, buf, len, 0);
-}
-int async_runtime_modify(async_runtime_t *rt, socket_fd_t fd, uint32_t ev, void *ctx) {
-  V_ASSERT(ctx == (void *)G_ip && fd == G_ip->fd, "write interest is changed for this connection only");
-  G_mod_mask = (int)ev; if (G_mod_calls < 1000) G_mod_calls++; return 0;
-}
-int debug_message_with_src(const char *a, const char *b, const char *c, int d, const char *e, ...) { return 0; }
+#include "c14_contracts.h"
 
 /* ---- harness ---- */
 void h_flush_message(void) {
@@ -86,15 +26,16 @@ void h_flush_message(void) {
   V_DECL(int, is_console);
   tab[0] = is_console ? ip : 0; tab[1] = is_console ? 0 : ip;
   all_users = tab; max_users = 2;
-  G_ip = ip; G_sent = 0; G_mod_calls = 0; G_mod_mask = -1;
+  G_ip = ip; G_mod_mask = -1;
+  V_DECL(long, sent0); V_ASSUME(0 <= sent0 && sent0 <= C14_GSENT_MAX); G_sent = sent0;
 #ifdef V_NATIVE
   if (!(C14_RING(ip))) v_assume_failed("C14_RING(ip)", __FILE__, __LINE__);
   int c0 = ip->message_consumer, l0 = ip->message_length, p0 = ip->message_producer, f0 = ip->iflags;
 #endif
   int r = flush_message(ip);
   V_POST(C14_RING(ip), "ring well formed");
-  V_POST(ip->message_consumer == (c0 + G_sent) % C14_N, "consumer advanced by accepted bytes");
-  V_POST(ip->message_length == l0 - G_sent, "length reduced by accepted bytes");
+  V_POST(ip->message_consumer == (c0 + (G_sent - sent0)) % C14_N, "consumer advanced by accepted bytes");
+  V_POST(ip->message_length == l0 - (G_sent - sent0), "length reduced by accepted bytes");
   V_POST(ip->message_producer == p0, "producer untouched");
   V_POST(r != 0 || (ip->iflags & (NET_DEAD | CLOSING)), "0 only when dead/closing");
   (void)r;
